@@ -26,7 +26,12 @@ func (s *Session) msConfig() *jobs.JobConfiguration {
 		deps = append(deps, map[string]interface{}{"dataset": s.DsReal(d.Ds), "joins": joins})
 	}
 	id := "ms-" + s.Tag
-	cfg := &jobs.JobConfiguration{ID: id, Title: id, BatchSize: 1000,
+	// batch sizes: above every feed length, and 1 and 2 (dependency changes and the entities they reach are paged)
+	batch := []int{1000, 1, 2, 1000, 2, 1}[(s.Variant/2)%6]
+	if v := os.Getenv("VERIF_MS_BATCH"); v != "" {
+		batch, _ = strconv.Atoi(v)
+	}
+	cfg := &jobs.JobConfiguration{ID: id, Title: id, BatchSize: batch,
 		Source:   map[string]interface{}{"Type": "MultiSource", "Name": s.DsReal(ms.Main), "Dependencies": deps},
 		Sink:     map[string]interface{}{"Type": "DevNullSink"},
 		Triggers: []jobs.JobTrigger{{TriggerType: jobs.TriggerTypeCron, JobType: jobs.JobTypeIncremental, Schedule: "0 0 1 1 *"}}}
